@@ -6,7 +6,75 @@ Import ListNotations.
 Open Scope Z_scope.
 
 (* ------------------------------------------------------------------------------------ *)
-(* one reservation                                                                         *)
+(* classes of a stored Reservation                                                         *)
+(* ------------------------------------------------------------------------------------ *)
+Lemma cls_gactive o : so_gactive o = true -> so_avail o = false /\ so_term o = false /\ so_node o = 0.
+Proof. unfold so_gactive, so_avail, so_term. lia. Qed.
+Lemma cls_avail o : so_avail o = true -> so_gactive o = false /\ so_term o = false /\ so_node o <> 0.
+Proof. unfold so_gactive, so_avail, so_term. lia. Qed.
+Lemma cls_term o : so_term o = true -> so_avail o = false /\ so_gactive o = false.
+Proof. unfold so_gactive, so_avail, so_term. lia. Qed.
+
+(* the seven cases of updateReservation, by class of the old and the new object *)
+Lemma gu_bind e old new s : so_gactive old = true -> so_avail new = true ->
+  g_update e old new s = (let e1 := to_cache e new in if so_resp old then q_set e1 false else e1).
+Proof.
+  intros Ho Hn. destruct (cls_gactive _ Ho) as (A & T & _). destruct (cls_avail _ Hn) as (_ & T' & _).
+  unfold g_update. rewrite A, T, Ho, Hn. reflexivity.
+Qed.
+Lemma gu_aa e old new s : so_avail old = true -> so_avail new = true -> g_update e old new s = upd_cache e old new.
+Proof.
+  intros Ho Hn. destruct (cls_avail _ Ho) as (_ & T & _). unfold g_update. rewrite T, Ho, Hn. reflexivity.
+Qed.
+Lemma gu_at e old new s : so_avail old = true -> so_term new = true ->
+  g_update e old new s = (let e1 := del_cache e old in if so_resp old then q_set e1 false else e1).
+Proof.
+  intros Ho Hn. destruct (cls_avail _ Ho) as (G & T & _). destruct (cls_term _ Hn) as (A' & _).
+  unfold g_update. rewrite T, Ho, A', G, Hn. reflexivity.
+Qed.
+Lemma gu_ag e old new s : so_avail old = true -> so_gactive new = true ->
+  g_update e old new s = (let e1 := del_cache e old in if so_resp new then q_set e1 true else e1).
+Proof.
+  intros Ho Hn. destruct (cls_avail _ Ho) as (G & T & _). destruct (cls_gactive _ Hn) as (A' & T' & _).
+  unfold g_update. rewrite T, Ho, A', G, T', Hn. reflexivity.
+Qed.
+Lemma gu_nn e old new s : so_avail old = false -> so_avail new = false ->
+  got_cache (g_update e old new s) = got_cache e /\ se_known (g_update e old new s) = se_known e.
+Proof.
+  intros Ho Hn. unfold g_update, upd_queue. rewrite Ho, Hn. cbn [andb].
+  destruct (so_term old), (so_term new), (so_gactive old), (so_gactive new), (so_resp old), (so_resp new), s,
+    (se_st e =? 2); cbn; split; reflexivity.
+Qed.
+
+(* the cache helpers on an entry *)
+Lemma to_cache_spec e o : se_st e <> 1 ->
+  got_cache (to_cache e o) = (1, (so_node o, so_amount o)) /\ se_known (to_cache e o) = se_known e.
+Proof.
+  intros H. unfold to_cache, c_add. replace (se_st e =? 1) with false by lia. split; reflexivity.
+Qed.
+Lemma del_cache_hit e o : so_node o <> 0 -> se_known e = true -> se_st e <> 0 -> se_node e = so_node o ->
+  got_cache (del_cache e o) = (0, (0, (0, 0))) /\ se_known (del_cache e o) = false.
+Proof.
+  intros Hn Hk Hs He. unfold del_cache, c_remove, k_set. rewrite Hk. cbn [negb se_st se_node].
+  replace (so_node o =? 0) with false by lia. replace (se_st e =? 0) with false by lia.
+  rewrite He, Z.eqb_refl. cbn [orb]. split; reflexivity.
+Qed.
+Lemma del_cache_miss e o : se_known e = false ->
+  got_cache (del_cache e o) = got_cache e /\ se_known (del_cache e o) = false.
+Proof.
+  intros Hk. unfold del_cache. destruct (so_node o =? 0); [split; [reflexivity|exact Hk]|].
+  rewrite Hk. cbn [negb]. split; reflexivity.
+Qed.
+Lemma del_cache_unassigned e o : so_node o = 0 -> del_cache e o = e.
+Proof. intros H. unfold del_cache. rewrite H. reflexivity. Qed.
+Lemma q_set_cache e b : got_cache (q_set e b) = got_cache e /\ se_known (q_set e b) = se_known e.
+Proof. split; reflexivity. Qed.
+Lemma if_q_cache (c : bool) e b :
+  got_cache (if c then q_set e b else e) = got_cache e /\ se_known (if c then q_set e b else e) = se_known e.
+Proof. destruct c; split; reflexivity. Qed.
+
+(* ------------------------------------------------------------------------------------ *)
+(* one reservation: the running scheduler                                                  *)
 (* ------------------------------------------------------------------------------------ *)
 (* reachable worlds: an assumption is only in flight for an unassigned reservation *)
 Definition WInv (w : wentry) : Prop :=
@@ -14,58 +82,539 @@ Definition WInv (w : wentry) : Prop :=
 Definition LInv (live : bool) (w : wentry) (e : sentry) : Prop :=
   got_cache e = exp_cache live w /\ se_known e = exp_known live w.
 
-Ltac unf :=
-  unfold WInv, LInv, got_cache, exp_cache, exp_known, w_avail, wstep, lstep,
-    ev_add, ev_update, ev_delete, g_add, g_update, g_delete, p_add, p_update, p_delete,
-    to_cache, del_cache, upd_cache, upd_queue, c_add, c_update, c_remove, c_assume, c_forget,
-    c_set, c_clear, q_set, k_set, so_amount, so_avail, so_gactive, so_term, so_resp, node_ok,
-    set_phase, set_sname, set_alloc, set_node in *;
-  cbn [we_life we_obj we_asm so_phase so_node so_sname so_req so_alloc
-       se_st se_node se_amt se_q se_known op_k op_r op_x op_y op_z fst snd] in *.
-Ltac red1 :=
-  cbn [we_life we_obj we_asm so_phase so_node so_sname so_req so_alloc
-       se_st se_node se_amt se_q se_known fst snd negb andb orb Z.eqb Pos.eqb] in *.
-Ltac brk1 :=
-  match goal with
-  | H : context [if ?b then _ else _] |- _ => destruct b eqn:?
-  | |- context [if ?b then _ else _] => destruct b eqn:?
-  end.
-Ltac fin :=
-  red1; try discriminate;
-  repeat match goal with
-         | H : Some _ = Some _ |- _ => injection H as H; subst
-         | H : (_, _) = (_, _) |- _ => injection H as ? ?; subst
-         end;
-  rewrite ?Z.eqb_refl in *; red1; try discriminate.
-Ltac leaf :=
-  first [ exfalso; lia
-        | repeat split; first [ reflexivity | lia | congruence | (repeat f_equal; lia) ] ].
-Ltac go := repeat (fin; brk1); fin; leaf.
-(* split on v = c, rewriting the boolean test away *)
-Ltac zsplit v c :=
-  destruct (Z.eq_dec v c) as [->|?];
-  [ | match goal with Hne : v <> c |- _ => rewrite ?(proj2 (Z.eqb_neq v c) Hne) in * end ].
-Ltac presplit life ph nd asm :=
-  zsplit life 1; [| zsplit life 0];
-  (zsplit ph 0; [| zsplit ph 1; [| zsplit ph 2; [| zsplit ph 3]]]);
-  zsplit nd 0; zsplit asm 0; fin.
+(* the three shapes of an entry that meets the invariant *)
+Inductive view (w : wentry) (e : sentry) : Prop :=
+| v_avail : w_avail w = true -> we_asm w = 0 -> got_cache e = (1, (so_node (we_obj w), so_alloc (we_obj w))) ->
+            se_known e = true -> view w e
+| v_assumed : w_avail w = false -> we_asm w <> 0 -> so_node (we_obj w) = 0 ->
+              got_cache e = (2, (we_asm w, so_req (we_obj w))) -> se_known e = true -> view w e
+| v_none : w_avail w = false -> we_asm w = 0 -> got_cache e = (0, (0, (0, 0))) -> se_known e = false -> view w e.
+
+Lemma linv_view w e : WInv w -> LInv true w e -> view w e.
+Proof.
+  intros [W1 W2] [L1 L2]. unfold exp_cache, exp_known in *. cbn [andb] in *.
+  destruct (w_avail w) eqn:A.
+  - apply v_avail; auto. destruct (Z.eq_dec (we_asm w) 0) as [|N]; [assumption|].
+    unfold w_avail in A. apply andb_true_iff in A. destruct A as [_ A]. apply cls_avail in A. specialize (W1 N). tauto.
+  - destruct (we_asm w =? 0) eqn:S; cbn [negb orb] in *.
+    + apply v_none; auto. lia.
+    + apply v_assumed; auto; try lia; try (apply W1; lia).
+Qed.
+Lemma view_linv w e : view w e -> LInv true w e.
+Proof.
+  intros [A S C K | A S N C K | A S C K]; unfold LInv, exp_cache, exp_known; rewrite A; cbn [andb orb].
+  - split; assumption.
+  - replace (we_asm w =? 0) with false by lia. split; assumption.
+  - rewrite S. split; assumption.
+Qed.
+Lemma st_of e a b : got_cache e = (a, b) -> se_st e = a /\ se_node e = fst b.
+Proof. unfold got_cache. intros H. injection H as <- <-. split; reflexivity. Qed.
+
+(* update events: [o] the stored object before, [o'] after, same in-flight assumption unless the
+   reservation gets bound (which confirms the assumed pod) *)
+Lemma upd_keep w e o' s :
+  we_life w = 1 -> view w e -> so_avail (we_obj w) = false -> so_avail o' = false -> so_node o' = so_node (we_obj w) ->
+  so_req o' = so_req (we_obj w) ->
+  view (mkWE 1 o' (we_asm w)) (ev_update (we_obj w) o' s e).
+Proof.
+  intros Hl V Ho Hn Hnode Hreq. unfold ev_update, p_update. rewrite Hn.
+  destruct (gu_nn e (we_obj w) o' s Ho Hn) as (C & K).
+  assert (A' : w_avail (mkWE 1 o' (we_asm w)) = false) by (unfold w_avail; cbn; exact Hn).
+  destruct V as [A S Ce Ke | A S N Ce Ke | A S Ce Ke].
+  - unfold w_avail in A. rewrite Hl, Ho in A. discriminate.
+  - apply v_assumed; cbn [we_obj we_asm]; [exact A'|exact S|congruence|congruence|congruence].
+  - apply v_none; cbn [we_obj we_asm]; [exact A'|exact S|congruence|congruence].
+Qed.
+Lemma upd_bind w e o' s :
+  we_life w = 1 -> view w e -> so_gactive (we_obj w) = true -> so_avail o' = true ->
+  view (mkWE 1 o' 0) (ev_update (we_obj w) o' s e).
+Proof.
+  intros Hl V Ho Hn. unfold ev_update, p_update. rewrite Hn, (gu_bind _ _ _ s Ho Hn). cbv zeta.
+  destruct (cls_gactive _ Ho) as (Ao & _).
+  assert (St : se_st (k_set e true) <> 1).
+  { destruct V as [A S Ce Ke | A S N Ce Ke | A S Ce Ke].
+    - unfold w_avail in A. rewrite Hl, Ao in A. discriminate.
+    - apply st_of in Ce. cbn. lia.
+    - apply st_of in Ce. cbn. lia. }
+  destruct (to_cache_spec (k_set e true) o' St) as (C & K).
+  destruct (if_q_cache (so_resp (we_obj w)) (to_cache (k_set e true) o') false) as (C' & K').
+  apply v_avail; cbn [we_obj we_asm];
+    [ unfold w_avail; cbn; exact Hn | reflexivity
+    | rewrite C', C; unfold so_amount; rewrite Hn; reflexivity | rewrite K', K; reflexivity ].
+Qed.
+Lemma upd_same_node w e o' s :
+  we_life w = 1 -> view w e -> so_avail (we_obj w) = true -> so_avail o' = true -> so_node o' = so_node (we_obj w) ->
+  view (mkWE 1 o' (we_asm w)) (ev_update (we_obj w) o' s e).
+Proof.
+  intros Hl V Ho Hn Hnode. unfold ev_update, p_update. rewrite Hn, (gu_aa _ _ _ s Ho Hn).
+  destruct (cls_avail _ Ho) as (_ & _ & Nz).
+  destruct V as [A S Ce Ke | A S N Ce Ke | A S Ce Ke].
+  2,3: unfold w_avail in A; rewrite Hl, Ho in A; discriminate.
+  destruct (st_of _ _ _ Ce) as (St & Nd). cbn [fst] in Nd.
+  unfold upd_cache, c_update, k_set. cbn [se_st se_node se_amt se_q se_known]. rewrite Hnode, St, Nd, !Z.eqb_refl.
+  replace (so_node (we_obj w) =? 0) with false by lia. cbn [andb negb].
+  apply v_avail; cbn [we_obj we_asm];
+    [ unfold w_avail; cbn; exact Hn | exact S
+    | unfold got_cache, c_set, so_amount; cbn; rewrite Hn, Hnode; reflexivity | reflexivity ].
+Qed.
+Lemma upd_unbind w e o' s :
+  we_life w = 1 -> view w e -> so_avail (we_obj w) = true -> (so_term o' = true \/ so_gactive o' = true) ->
+  view (mkWE 1 o' (we_asm w)) (ev_update (we_obj w) o' s e).
+Proof.
+  intros Hl V Ho Hn. unfold ev_update, p_update.
+  assert (An : so_avail o' = false).
+  { destruct Hn as [T|G]; [apply (cls_term _ T)|apply (cls_gactive _ G)]. }
+  rewrite An. destruct (cls_avail _ Ho) as (_ & _ & Nz).
+  destruct V as [A S Ce Ke | A S N Ce Ke | A S Ce Ke].
+  2,3: unfold w_avail in A; rewrite Hl, Ho in A; discriminate.
+  destruct (st_of _ _ _ Ce) as (St & Nd). cbn [fst] in Nd.
+  assert (Hd : got_cache (del_cache e (we_obj w)) = (0, (0, (0, 0))) /\ se_known (del_cache e (we_obj w)) = false)
+    by (apply del_cache_hit; auto; lia).
+  destruct Hd as (C & K).
+  assert (R : got_cache (g_update e (we_obj w) o' s) = (0, (0, (0, 0))) /\ se_known (g_update e (we_obj w) o' s) = false).
+  { destruct Hn as [T|G].
+    - rewrite (gu_at _ _ _ s Ho T). cbv zeta.
+      destruct (if_q_cache (so_resp (we_obj w)) (del_cache e (we_obj w)) false) as (C' & K'). rewrite C', K'. auto.
+    - rewrite (gu_ag _ _ _ s Ho G). cbv zeta.
+      destruct (if_q_cache (so_resp o') (del_cache e (we_obj w)) true) as (C' & K'). rewrite C', K'. auto. }
+  destruct R as (RC & RK).
+  apply v_none; cbn [we_obj we_asm]; [unfold w_avail; cbn; exact An|exact S|exact RC|exact RK].
+Qed.
+
+(* changing the scheduler name / the allocatable / the phase keeps the other fields *)
+Lemma avail_set_sname o x : so_avail (set_sname o x) = so_avail o. Proof. reflexivity. Qed.
+Lemma avail_set_alloc o a : so_avail (set_alloc o a) = so_avail o. Proof. reflexivity. Qed.
 
 Lemma lstep_inv nn d w op w' e :
   WInv w -> LInv true w e -> wstep nn d w op = Some w' -> (op_k op =? 10) = false ->
   WInv w' /\ LInv true w' (lstep w w' op e).
 Proof.
-  destruct w as [life [ph nd sn rq al] asm], e as [st en am q kn], op as [k r x y z], d as [dr dsn dsh].
-  intros [W1 W2] [L1 L2] Hs K10. unf.
-  destruct (k =? 1) eqn:K1. { time (presplit life ph nd asm; go). }
-  destruct (k =? 2) eqn:K2. { time (presplit life ph nd asm; go). }
-  destruct (k =? 3) eqn:K3. { time (presplit life ph nd asm; go). }
-  destruct (k =? 4) eqn:K4. { time (presplit life ph nd asm; go). }
-  destruct (k =? 5) eqn:K5. { time (presplit life ph nd asm; go). }
-  destruct (k =? 6) eqn:K6. { time (presplit life ph nd asm; go). }
-  destruct (k =? 7) eqn:K7. { time (presplit life ph nd asm; go). }
-  destruct (k =? 8) eqn:K8. { time (presplit life ph nd asm; go). }
-  destruct (k =? 9) eqn:K9. { time (presplit life ph nd asm; go). }
+  intros HW HL Hs K10. pose proof (linv_view _ _ HW HL) as V. destruct HW as [W1 W2].
+  unfold wstep in Hs. unfold lstep.
+  destruct (op_k op =? 1) eqn:K1.
+  { (* create *)
+    destruct (we_life w =? 0) eqn:L0; [|discriminate]. assert (Hasm : we_asm w = 0) by (apply W2; lia).
+    assert (Hno : w_avail w = false) by (unfold w_avail; replace (we_life w =? 1) with false by lia; reflexivity).
+    assert (Vn : got_cache e = (0, (0, (0, 0))) /\ se_known e = false).
+    { destruct V as [A S Ce Ke | A S N Ce Ke | A S Ce Ke]; [congruence|contradiction|auto]. }
+    destruct Vn as (Ce & Ke).
+    destruct (op_x op =? 0) eqn:X0.
+    - injection Hs as <-. cbn [we_obj]. split; [split; cbn; [congruence|lia]|]. apply view_linv.
+      set (o := mkSO 0 0 (sd_sname d) (sd_req d) (sd_req d)).
+      assert (Ao : so_avail o = false) by reflexivity.
+      unfold ev_add, p_add, g_add. rewrite Ao.
+      apply v_none; cbn [we_obj we_asm];
+        [ reflexivity | reflexivity
+        | destruct (so_gactive o && so_resp o); [rewrite (proj1 (q_set_cache _ _))|]; assumption
+        | destruct (so_gactive o && so_resp o); [rewrite (proj2 (q_set_cache _ _))|]; assumption ].
+    - destruct (node_ok nn (op_x op) && ((0 <=? op_y op) && (0 <=? op_z op))) eqn:E; [|discriminate].
+      injection Hs as <-. cbn [we_obj]. split; [split; cbn; [congruence|lia]|]. apply view_linv.
+      set (o := mkSO 1 (op_x op) (sd_sname d) (sd_req d) (op_y op, op_z op)).
+      assert (Ao : so_avail o = true) by (unfold so_avail, o; cbn; lia).
+      destruct (cls_avail _ Ao) as (G & _).
+      unfold ev_add, p_add, g_add. rewrite Ao, G. cbn [andb].
+      assert (St : se_st (k_set e true) <> 1) by (apply st_of in Ce; cbn; lia).
+      destruct (to_cache_spec (k_set e true) o St) as (C & K).
+      apply v_avail; cbn [we_obj we_asm];
+        [ unfold w_avail; cbn; exact Ao | reflexivity
+        | rewrite C; unfold so_amount; rewrite Ao; reflexivity | rewrite K; reflexivity ]. }
+  destruct (op_k op =? 2) eqn:K2.
+  { (* assume *)
+    destruct (_ && _) eqn:E in Hs; [|discriminate]. injection Hs as <-. cbn [we_obj].
+    rewrite !andb_true_iff in E. destruct E as ((((Hl & G) & R) & S) & N).
+    destruct (cls_gactive _ G) as (Ao & _ & Nd).
+    split; [split; cbn; [auto|lia]|]. apply view_linv.
+    assert (Hno : w_avail w = false) by (unfold w_avail; rewrite Ao; apply andb_false_r).
+    destruct V as [A S' Ce Ke | A S' N' Ce Ke | A S' Ce Ke]; [congruence|lia|].
+    apply st_of in Ce. destruct Ce as (St & _).
+    apply v_assumed; cbn [we_obj we_asm];
+      [ unfold w_avail; cbn; exact Ao | unfold node_ok in N; lia | exact Nd
+      | unfold c_assume, k_set, q_set, c_set, got_cache; cbn; rewrite St; cbn; unfold so_amount; rewrite Ao; reflexivity
+      | unfold c_assume, k_set, q_set, c_set; cbn; rewrite St; reflexivity ]. }
+  destruct (op_k op =? 3) eqn:K3.
+  { (* forget *)
+    destruct (negb (we_asm w =? 0)) eqn:S; [|discriminate]. injection Hs as <-. cbn [we_obj].
+    split; [split; cbn; [congruence|reflexivity]|]. apply view_linv.
+    destruct V as [A S' Ce Ke | A S' N' Ce Ke | A S' Ce Ke]; [lia| |lia].
+    apply st_of in Ce. destruct Ce as (St & Nd). cbn [fst] in Nd.
+    set (e1 := c_forget (k_set e false) (we_asm w)).
+    assert (H1 : got_cache e1 = (0, (0, (0, 0))) /\ se_known e1 = false).
+    { unfold e1, c_forget, k_set. cbn [se_st se_node se_amt se_q se_known]. rewrite St, Nd, !Z.eqb_refl. cbn. split; reflexivity. }
+    destruct H1 as (C1 & K1').
+    assert (Hno : w_avail (mkWE (we_life w) (we_obj w) 0) = false) by exact A.
+    apply v_none;
+      [ exact Hno | reflexivity
+      | destruct ((we_life w =? 1) && so_gactive (we_obj w) && so_resp (we_obj w)); [rewrite (proj1 (q_set_cache _ _))|]; assumption
+      | destruct ((we_life w =? 1) && so_gactive (we_obj w) && so_resp (we_obj w)); [rewrite (proj2 (q_set_cache _ _))|]; assumption ]. }
+  destruct (op_k op =? 4) eqn:K4.
+  { (* bind *)
+    replace (op_k op =? 5) with false by lia. replace (op_k op =? 7) with false by lia.
+    destruct (_ && _) eqn:E in Hs; [|discriminate]. injection Hs as <-. cbn [we_obj].
+    rewrite !andb_true_iff in E. destruct E as ((((Hl & P) & Nd) & YZ) & N).
+    set (o' := mkSO 1 _ _ _ _).
+    assert (G : so_gactive (we_obj w) = true) by (unfold so_gactive, so_term; lia).
+    assert (Ao' : so_avail o' = true).
+    { unfold so_avail, o'. cbn. destruct (we_asm w =? 0) eqn:S; unfold node_ok in N; lia. }
+    split; [split; cbn; [congruence|lia]|]. apply view_linv. apply upd_bind; auto. lia. }
+  destruct (op_k op =? 5) eqn:K5.
+  { (* resync *)
+    destruct (we_life w =? 1) eqn:Hl; [|discriminate]. injection Hs as <-.
+    split; [split; assumption|]. apply view_linv.
+    replace w with (mkWE 1 (we_obj w) (we_asm w)) at 1 by (destruct w; cbn in *; f_equal; lia).
+    destruct (so_avail (we_obj w)) eqn:Ao.
+    - apply upd_same_node; auto. lia.
+    - apply upd_keep; auto. lia. }
+  destruct (op_k op =? 6) eqn:K6.
+  { (* terminate *)
+    replace (op_k op =? 7) with false by lia.
+    destruct (_ && _) eqn:E in Hs; [|discriminate]. injection Hs as <-. cbn [we_obj we_asm].
+    rewrite !andb_true_iff in E. destruct E as ((Hl & T) & X).
+    assert (T' : so_term (set_phase (we_obj w) (op_x op)) = true) by (unfold so_term, set_phase; cbn; lia).
+    split; [split; cbn; [exact W1|lia]|]. apply view_linv.
+    destruct (so_avail (we_obj w)) eqn:Ao.
+    - apply upd_unbind; auto. lia.
+    - apply upd_keep; auto; [lia|apply (cls_term _ T')]. }
+  destruct (op_k op =? 7) eqn:K7.
+  { (* delete *)
+    destruct (we_life w =? 1) eqn:Hl; [|discriminate]. injection Hs as <-. cbn [we_obj we_asm].
+    split; [split; cbn; [exact W1|lia]|]. apply view_linv.
+    unfold ev_delete, p_delete, g_delete.
+    destruct (if_q_cache (so_resp (we_obj w)) (del_cache e (we_obj w)) false) as (C' & K').
+    assert (Hno : w_avail (mkWE 2 (we_obj w) (we_asm w)) = false) by reflexivity.
+    destruct V as [A S Ce Ke | A S N Ce Ke | A S Ce Ke].
+    - unfold w_avail in A. apply andb_true_iff in A. destruct A as (_ & A).
+      destruct (cls_avail _ A) as (_ & _ & Nz). destruct (st_of _ _ _ Ce) as (St & Nd). cbn [fst] in Nd.
+      destruct (del_cache_hit e (we_obj w) Nz Ke) as (C & K); [lia|exact Nd|].
+      apply v_none; cbn [we_obj we_asm]; [exact Hno|exact S|congruence|congruence].
+    - rewrite (del_cache_unassigned _ _ N) in *.
+      apply v_assumed; cbn [we_obj we_asm]; [exact Hno|exact S|exact N|congruence|congruence].
+    - destruct (del_cache_miss e (we_obj w) Ke) as (C & K).
+      apply v_none; cbn [we_obj we_asm]; [exact Hno|exact S|congruence|congruence]. }
+  destruct (op_k op =? 8) eqn:K8.
+  { (* scheduler name *)
+    destruct (_ && _) eqn:E in Hs; [|discriminate]. injection Hs as <-. cbn [we_obj we_asm].
+    rewrite !andb_true_iff in E. destruct E as ((Hl & X0) & X3).
+    split; [split; cbn; [exact W1|lia]|]. apply view_linv.
+    destruct (so_avail (we_obj w)) eqn:Ao.
+    - apply upd_same_node; auto. lia.
+    - apply upd_keep; auto. lia. }
+  destruct (op_k op =? 9) eqn:K9.
+  { (* resize *)
+    destruct (_ && _) eqn:E in Hs; [|discriminate]. injection Hs as <-. cbn [we_obj we_asm].
+    rewrite !andb_true_iff in E. destruct E as ((Hl & Ao) & YZ).
+    split; [split; cbn; [exact W1|lia]|]. apply view_linv. apply upd_same_node; auto. lia. }
   rewrite K10 in Hs.
-  destruct (k =? 11) eqn:K11. { time (presplit life ph nd asm; go). }
-  discriminate.
+  destruct (op_k op =? 11) eqn:K11; [|discriminate].
+  { (* rollback *)
+    destruct (_ && _) eqn:E in Hs; [|discriminate]. injection Hs as <-. cbn [we_obj we_asm].
+    rewrite !andb_true_iff in E. destruct E as (Hl & Ao).
+    split; [split; cbn; [reflexivity|lia]|]. apply view_linv. apply upd_unbind; [lia|exact V|exact Ao|right; reflexivity]. }
+Qed.
+
+(* ------------------------------------------------------------------------------------ *)
+(* one reservation: the freshly started scheduler                                          *)
+(* ------------------------------------------------------------------------------------ *)
+(* before its Add has been handled nothing is held (an Update may already have created the
+   ReservationInfo); after it the entry is the expected one and stays so *)
+Definition FPre (w : wentry) (e : sentry) : Prop :=
+  got_cache e = (0, (0, (0, 0))) /\ (se_known e = false \/ se_known e = exp_known false w).
+Definition FFin (w : wentry) (e : sentry) : Prop := LInv false w e.
+
+Lemma exp_false_avail w : w_avail w = true ->
+  exp_cache false w = (1, (so_node (we_obj w), so_alloc (we_obj w))) /\ exp_known false w = true.
+Proof. intros A. unfold exp_cache, exp_known. rewrite A. split; reflexivity. Qed.
+Lemma exp_false_none w : w_avail w = false ->
+  exp_cache false w = (0, (0, (0, 0))) /\ exp_known false w = false.
+Proof. intros A. unfold exp_cache, exp_known. rewrite A. split; reflexivity. Qed.
+Lemma w_avail_stored w : we_life w = 1 -> w_avail w = so_avail (we_obj w).
+Proof. intros H. unfold w_avail. rewrite H. reflexivity. Qed.
+
+Lemma ffin_add w e : we_life w = 1 -> FPre w e \/ FFin w e -> FFin w (ev_add (we_obj w) e).
+Proof.
+  intros Hl H. pose proof (w_avail_stored _ Hl) as HA. unfold FFin, LInv, ev_add, p_add, g_add.
+  destruct (so_avail (we_obj w)) eqn:Ao.
+  - destruct (exp_false_avail _ HA) as (EC & EK). rewrite EC, EK.
+    destruct (cls_avail _ Ao) as (G & _). rewrite G. cbn [andb].
+    destruct H as [[C K] | [C K]].
+    + assert (St : se_st (k_set e true) <> 1) by (apply st_of in C; cbn; lia).
+      destruct (to_cache_spec (k_set e true) (we_obj w) St) as (C' & K').
+      rewrite C', K'. unfold so_amount. rewrite Ao. split; reflexivity.
+    + rewrite EC in C. destruct (st_of _ _ _ C) as (St & _).
+      unfold to_cache, c_add, k_set. cbn [se_st]. rewrite St. cbn [Z.eqb Pos.eqb].
+      split; [|reflexivity]. unfold got_cache in *. cbn. injection C as C1 C2 C3. rewrite C2, C3. reflexivity.
+  - destruct (exp_false_none _ HA) as (EC & EK). rewrite EC, EK.
+    assert (He : got_cache e = (0, (0, (0, 0))) /\ se_known e = false).
+    { destruct H as [[C [K|K]] | [C K]]; [auto|rewrite EK in K; auto|rewrite EC in C; rewrite EK in K; auto]. }
+    destruct (so_gactive (we_obj w) && so_resp (we_obj w)); [|exact He].
+    destruct (q_set_cache e true) as (C' & K'). rewrite C', K'. exact He.
+Qed.
+Lemma ffin_upd w e : we_life w = 1 -> FFin w e -> FFin w (ev_update (we_obj w) (we_obj w) true e).
+Proof.
+  intros Hl [C K]. pose proof (w_avail_stored _ Hl) as HA. unfold FFin, LInv, ev_update, p_update.
+  destruct (so_avail (we_obj w)) eqn:Ao.
+  - destruct (exp_false_avail _ HA) as (EC & EK). rewrite EC, EK in *.
+    rewrite (gu_aa _ _ _ true Ao Ao). destruct (cls_avail _ Ao) as (_ & _ & Nz).
+    destruct (st_of _ _ _ C) as (St & Nd). cbn [fst] in Nd.
+    unfold upd_cache, c_update, k_set. cbn [se_st se_node se_amt se_q se_known]. rewrite St, Nd, !Z.eqb_refl.
+    replace (so_node (we_obj w) =? 0) with false by lia. cbn [andb negb].
+    unfold got_cache, c_set, so_amount. cbn. rewrite Ao. split; reflexivity.
+  - destruct (gu_nn e (we_obj w) (we_obj w) true Ao Ao) as (C' & K'). rewrite C', K'. split; assumption.
+Qed.
+Lemma fpre_upd w e : we_life w = 1 -> FPre w e -> FPre w (ev_update (we_obj w) (we_obj w) true e).
+Proof.
+  intros Hl [C K]. pose proof (w_avail_stored _ Hl) as HA. unfold FPre, ev_update, p_update.
+  destruct (so_avail (we_obj w)) eqn:Ao.
+  - destruct (exp_false_avail _ HA) as (EC & EK). rewrite EK in *.
+    rewrite (gu_aa _ _ _ true Ao Ao). destruct (cls_avail _ Ao) as (_ & _ & Nz).
+    destruct (st_of _ _ _ C) as (St & Nd).
+    unfold upd_cache, c_update, k_set. cbn [se_st se_node se_amt se_q se_known]. rewrite St.
+    replace (so_node (we_obj w) =? 0) with false by lia. rewrite Z.eqb_refl. cbn [andb negb Z.eqb].
+    split; [unfold got_cache in *; cbn; injection C as C1 C2 C3; rewrite C2, C3; reflexivity|right; reflexivity].
+  - destruct (gu_nn e (we_obj w) (we_obj w) true Ao Ao) as (C' & K'). rewrite C', K'. split; assumption.
+Qed.
+Lemma init_FPre w : FPre w se_init.
+Proof. split; [reflexivity|left; reflexivity]. Qed.
+Lemma init_FFin w : w_avail w = false -> FFin w se_init.
+Proof. intros A. destruct (exp_false_none _ A) as (EC & EK). unfold FFin, LInv. rewrite EC, EK. split; reflexivity. Qed.
+
+(* ------------------------------------------------------------------------------------ *)
+(* all reservations                                                                        *)
+(* ------------------------------------------------------------------------------------ *)
+Lemma upd1_same {A} (m : Z -> A) k v : upd1 m k v k = v.
+Proof. unfold upd1. rewrite Z.eqb_refl. reflexivity. Qed.
+Lemma upd1_other {A} (m : Z -> A) k v k' : k' <> k -> upd1 m k v k' = m k'.
+Proof. intros H. unfold upd1. replace (k' =? k) with false by lia. reflexivity. Qed.
+
+Section Sched.
+  Variable nn : Z.
+  Variable ds : list sdesc.
+
+  (* the running scheduler, over every history without a node migration *)
+  Record SInv (l : slive) : Prop := {
+    si_w : forall r, WInv (sl_w l r);
+    si_l : forall r, LInv true (sl_w l r) (sl_s l r);
+    si_out : forall r, r_valid ds r = false -> sl_w l r = we_init }.
+
+  Lemma SInv_init : SInv slive_init.
+  Proof.
+    split; intros; cbn.
+    - split; cbn; [congruence|reflexivity].
+    - split; reflexivity.
+    - reflexivity.
+  Qed.
+  Lemma slive_step_SInv l op : (op_k op =? 10) = false -> SInv l -> SInv (slive_step nn ds l op).
+  Proof.
+    intros K [HW HL HO]. unfold slive_step.
+    destruct (r_valid ds (op_r op)) eqn:V; cbn [negb]; [|split; assumption].
+    destruct (wstep nn (desc_at ds (op_r op)) (sl_w l (op_r op)) op) as [w'|] eqn:Hs; [|split; assumption].
+    destruct (lstep_inv _ _ _ _ _ _ (HW (op_r op)) (HL (op_r op)) Hs K) as (W' & L').
+    split; cbn [sl_w sl_s]; intros r.
+    - destruct (Z.eq_dec r (op_r op)) as [->|N]; [rewrite upd1_same; exact W'|rewrite upd1_other by exact N; apply HW].
+    - destruct (Z.eq_dec r (op_r op)) as [->|N]; [rewrite !upd1_same; exact L'|rewrite !upd1_other by exact N; apply HL].
+    - intros Hr. assert (N : r <> op_r op) by congruence. rewrite upd1_other by exact N. apply HO, Hr.
+  Qed.
+  Lemma slive_step_world_out l op r : r_valid ds r = false -> sl_w (slive_step nn ds l op) r = sl_w l r.
+  Proof.
+    intros Hr. unfold slive_step. destruct (r_valid ds (op_r op)) eqn:V; cbn [negb]; [|reflexivity].
+    destruct (wstep _ _ _ _); [|reflexivity]. cbn. apply upd1_other. congruence.
+  Qed.
+
+  (* the fresh scheduler, for any world *)
+  Variable w : wstate.
+  Definition deliverable (r : Z) : bool := r_valid ds r && (we_life (w r) =? 1).
+  Record FS (f : sfresh) : Prop := {
+    fs_good : forall r, FPre (w r) (sf_s f r) \/ FFin (w r) (sf_s f r);
+    fs_seen : forall r, sf_seen f r = true -> FFin (w r) (sf_s f r);
+    fs_out : forall r, deliverable r = false -> sf_s f r = se_init }.
+
+  Lemma FS_init : FS sfresh_init.
+  Proof. split; intros; cbn; [left; apply init_FPre|discriminate|reflexivity]. Qed.
+
+  Lemma sreplay_step_FS f ev : FS f -> FS (sreplay_step ds w f ev).
+  Proof.
+    intros [HG HS HO]. destruct ev as [k r]. unfold sreplay_step.
+    destruct (r_valid ds r) eqn:V; cbn [negb]; [|split; assumption].
+    destruct (we_life (w r) =? 1) eqn:Hl; cbn [negb]; [|split; assumption].
+    assert (Hl' : we_life (w r) = 1) by lia.
+    assert (Hd : deliverable r = true) by (unfold deliverable; rewrite V, Hl; reflexivity).
+    destruct (k =? 1) eqn:K1.
+    { pose proof (ffin_add _ _ Hl' (HG r)) as F.
+      split; cbn [sf_s sf_seen]; intros r'.
+      - destruct (Z.eq_dec r' r) as [->|N]; [rewrite upd1_same; right; exact F|rewrite upd1_other by exact N; apply HG].
+      - destruct (Z.eq_dec r' r) as [->|N]; [rewrite !upd1_same; intros _; exact F|rewrite !upd1_other by exact N; apply HS].
+      - intros Hr. assert (N : r' <> r) by congruence. rewrite upd1_other by exact N. apply HO, Hr. }
+    destruct (k =? 2) eqn:K2; [|split; assumption].
+    split; cbn [sf_s sf_seen]; intros r'.
+    - destruct (Z.eq_dec r' r) as [->|N]; [rewrite upd1_same|rewrite upd1_other by exact N; apply HG].
+      destruct (HG r) as [P|F]; [left; apply fpre_upd|right; apply ffin_upd]; assumption.
+    - destruct (Z.eq_dec r' r) as [->|N]; [rewrite upd1_same|rewrite upd1_other by exact N; apply HS].
+      intros Hs. apply ffin_upd; [exact Hl'|apply HS, Hs].
+    - intros Hr. assert (N : r' <> r) by congruence. rewrite upd1_other by exact N. apply HO, Hr.
+  Qed.
+  Lemma sfold_FS evs f : FS f -> FS (fold_left (sreplay_step ds w) evs f).
+  Proof. revert f. induction evs as [|ev t IH]; intros f H; [exact H|]. cbn. apply IH, sreplay_step_FS, H. Qed.
+
+  Lemma sreplay_step_seen f ev r : sf_seen f r = true -> sf_seen (sreplay_step ds w f ev) r = true.
+  Proof.
+    intros H. destruct ev as [k r']. unfold sreplay_step.
+    destruct (r_valid ds r'); cbn [negb]; [|exact H].
+    destruct (we_life (w r') =? 1); cbn [negb]; [|exact H].
+    destruct (k =? 1); [|destruct (k =? 2); exact H].
+    cbn [sf_seen]. unfold upd1. destruct (r =? r'); [reflexivity|exact H].
+  Qed.
+  Lemma sfold_seen evs f r : sf_seen f r = true -> sf_seen (fold_left (sreplay_step ds w) evs f) r = true.
+  Proof. revert f. induction evs as [|ev t IH]; intros f H; [exact H|]. cbn. apply IH, sreplay_step_seen, H. Qed.
+  Lemma sadds_seen l f r : In r l -> deliverable r = true ->
+    sf_seen (fold_left (sreplay_step ds w) (map (fun u => (1, u)) l) f) r = true.
+  Proof.
+    revert f. induction l as [|u t IH]; intros f Hin Hd; [destruct Hin|]. cbn [map fold_left].
+    destruct Hin as [->|Hin]; [|apply IH; assumption].
+    apply sfold_seen. unfold sreplay_step, deliverable in *. apply andb_true_iff in Hd. destruct Hd as (V & Hl).
+    rewrite V, Hl. cbn [negb Z.eqb Pos.eqb sf_seen]. apply upd1_same.
+  Qed.
+
+  Theorem sreplay_holds script : (forall r, r_valid ds r = false -> w r = we_init) ->
+    Holds false w (sreplay ds w script).
+  Proof.
+    intros Hout r. unfold sreplay.
+    set (f1 := fold_left (sreplay_step ds w) script sfresh_init).
+    assert (F1 : FS f1) by (apply sfold_FS, FS_init).
+    pose proof (sfold_FS (scompletion ds f1) f1 F1) as F2.
+    set (f2 := fold_left (sreplay_step ds w) (scompletion ds f1) f1) in *.
+    assert (FF : FFin (w r) (sf_s f2 r)).
+    { destruct (deliverable r) eqn:Hd.
+      - apply (fs_seen _ F2). destruct (sf_seen f1 r) eqn:S1.
+        + apply sfold_seen, S1.
+        + unfold f2, scompletion. apply sadds_seen; [|exact Hd].
+          apply filter_In. split; [|rewrite S1; reflexivity].
+          unfold deliverable, r_valid in Hd. apply range_list_In. lia.
+      - rewrite (fs_out _ F2 r Hd). apply init_FFin. unfold w_avail.
+        unfold deliverable in Hd. destruct (r_valid ds r) eqn:V.
+        + cbn [andb] in Hd. rewrite Hd. reflexivity.
+        + rewrite (Hout r V). reflexivity. }
+    exact FF.
+  Qed.
+End Sched.
+
+(* ------------------------------------------------------------------------------------ *)
+(* the decision procedure on the model's own snapshots                                     *)
+(* ------------------------------------------------------------------------------------ *)
+Lemma eq_cache_refl x : eq_cache x x = true.
+Proof. unfold eq_cache, eq_pair. rewrite !Z.eqb_refl. reflexivity. Qed.
+
+Lemma node_sum_exp live w s nr n : Holds live w s -> node_sum s nr n = exp_node_sum live w nr n.
+Proof.
+  intros H. unfold node_sum, exp_node_sum. induction (zrange 1 nr) as [|r t IH]; [reflexivity|].
+  cbn [fold_right]. rewrite IH. destruct (H r) as (C & _).
+  unfold held_on, exp_on. unfold got_cache in C. rewrite <- C. cbn [fst snd]. reflexivity.
+Qed.
+
+Lemma ssnap_good nn nr live w s : Holds live w s -> ssnap_code nn nr live w (ssnapshot nn nr s) = 0.
+Proof.
+  intros H. unfold ssnap_code, ssnapshot. cbn [ss_rsv ss_node]. rewrite !map_length, !zrange_length, Nat.eqb_refl.
+  replace (Z.of_nat (Z.to_nat nn) =? Z.max 0 nn) with true by lia. cbn [andb negb].
+  rewrite !combine_map_r.
+  assert (E1 : first_nz (map (fun re => entry_clause live (w (fst re)) (snd re)) (map (fun x => (x, s x)) (zrange 1 nr))) = 0).
+  { apply first_nz_zero. intros x Hx. apply in_map_iff in Hx. destruct Hx as ([r e] & <- & Hin).
+    apply in_map_iff in Hin. destruct Hin as (r' & He & _). injection He as <- <-. cbn [fst snd].
+    unfold entry_clause. destruct (H r') as (C & _). rewrite C, eq_cache_refl. reflexivity. }
+  rewrite E1. cbn [Z.eqb negb].
+  assert (E2 : forallb (fun ne => eq_nsum (exp_node_sum live w nr (fst ne)) (snd ne))
+                 (map (fun x => (x, node_sum s nr x)) (zrange 1 (Z.to_nat nn))) = true).
+  { apply forallb_forall. intros [n v] Hin. apply in_map_iff in Hin. destruct Hin as (n' & He & _). injection He as <- <-.
+    cbn [fst snd]. rewrite (node_sum_exp live w s nr n' H). unfold eq_nsum, eq_pair. rewrite !Z.eqb_refl. reflexivity. }
+  rewrite E2. cbn [negb].
+  assert (E3 : forallb (fun re => Bool.eqb (exp_known live (w (fst re))) (se_known (snd re)))
+                 (map (fun x => (x, s x)) (zrange 1 nr)) = true).
+  { apply forallb_forall. intros [r e] Hin. apply in_map_iff in Hin. destruct Hin as (r' & He & _). injection He as <- <-.
+    cbn [fst snd]. destruct (H r') as (_ & K). rewrite K. apply eqb_reflx. }
+  rewrite E3. reflexivity.
+Qed.
+
+Section SchedMain.
+  Variable c : scase.
+  Let nn := s_nn c.
+  Let ds := s_descs c.
+
+  Lemma SInv_holds l : SInv ds l -> Holds true (sl_w l) (sl_s l).
+  Proof. intros [_ HL _] r. apply HL. Qed.
+
+  Lemma sstep_ok l : SInv ds l ->
+    sstep_code c (sl_w l)
+      (ssnapshot nn (length ds) (sl_s l), ssnapshot nn (length ds) (sreplay ds (sl_w l) (s_script c))) = 0.
+  Proof.
+    intros HI. unfold sstep_code. cbn [fst snd]. fold nn ds.
+    rewrite (ssnap_good nn (length ds) true _ _ (SInv_holds l HI)). cbn [Z.eqb orb].
+    apply ssnap_good, sreplay_holds, (si_out _ _ HI).
+  Qed.
+
+  Lemma srun_ops_ok l ops : no_migration ops = true -> SInv ds l ->
+    first_nz (map (fun wo => sstep_code c (fst wo) (snd wo)) (combine (sworlds c l ops) (srun_ops c l ops))) = 0.
+  Proof.
+    revert l. induction ops as [|op t IH]; intros l HM HI; [reflexivity|].
+    cbn [no_migration forallb] in HM. apply andb_true_iff in HM. destruct HM as (K & HM).
+    cbn [sworlds srun_ops combine map first_nz fst snd]. fold nn ds.
+    assert (HI' : SInv ds (slive_step nn ds l op)) by (apply slive_step_SInv; [destruct (op_k op =? 10); [discriminate|reflexivity]|exact HI]).
+    rewrite (sstep_ok _ HI'). cbn [Z.eqb]. apply IH; assumption.
+  Qed.
+  Lemma srun_ops_length l ops : length (srun_ops c l ops) = length ops.
+  Proof. revert l. induction ops as [|op t IH]; intros l; [reflexivity|]. cbn [srun_ops length]. f_equal. apply IH. Qed.
+
+  Theorem sched_restart : no_migration (s_ops c) = true -> prop_sched c (srun c) = 0.
+  Proof.
+    intros HM. unfold prop_sched, srun. rewrite srun_ops_length, Nat.eqb_refl. cbn [negb].
+    apply srun_ops_ok; [exact HM|apply SInv_init].
+  Qed.
+End SchedMain.
+
+(* the caches themselves, over all histories, cuts and scripts *)
+Definition slive_after (c : scase) (ops : list sop) : slive := fold_left (slive_step (s_nn c) (s_descs c)) ops slive_init.
+
+Lemma sfold_SInv nn ds ops l : no_migration ops = true -> SInv ds l -> SInv ds (fold_left (slive_step nn ds) ops l).
+Proof.
+  revert l. induction ops as [|op t IH]; intros l HM H0; [exact H0|].
+  cbn [no_migration forallb] in HM. apply andb_true_iff in HM. destruct HM as (K & HM).
+  cbn [fold_left]. apply IH; [exact HM|].
+  apply slive_step_SInv; [destruct (op_k op =? 10); [discriminate|reflexivity]|exact H0].
+Qed.
+Lemma slive_after_SInv c ops : no_migration ops = true -> SInv (s_descs c) (slive_after c ops).
+Proof. intros HM. unfold slive_after. apply sfold_SInv; [exact HM|apply SInv_init]. Qed.
+
+Theorem sched_restart_caches c ops script : no_migration ops = true ->
+  let l := slive_after c ops in
+  Holds true (sl_w l) (sl_s l) /\ Holds false (sl_w l) (sreplay (s_descs c) (sl_w l) script).
+Proof.
+  intros HM l. pose proof (slive_after_SInv c ops HM) as HI. split.
+  - intros r. apply (si_l _ _ HI).
+  - apply sreplay_holds, (si_out _ _ HI).
+Qed.
+
+(* nothing reserved is free after the restart: every bound reservation is held on its node with the
+   persisted amount, and the node's requested total counts it *)
+Theorem sched_nothing_freed c ops script r : no_migration ops = true ->
+  let l := slive_after c ops in
+  let f := sreplay (s_descs c) (sl_w l) script in
+  w_avail (sl_w l r) = true ->
+  se_st (f r) = 1 /\ se_node (f r) = so_node (we_obj (sl_w l r)) /\ se_amt (f r) = so_alloc (we_obj (sl_w l r))
+  /\ se_known (f r) = true
+  /\ (r_valid (s_descs c) r = true ->
+      held_on f (so_node (we_obj (sl_w l r))) r = true).
+Proof.
+  intros HM l f A. destruct (sched_restart_caches c ops script HM) as (_ & HF).
+  destruct (HF r) as (C & K). fold l in C, K. fold f in C, K.
+  destruct (exp_false_avail _ A) as (EC & EK). rewrite EC in C. rewrite EK in K.
+  unfold got_cache in C. injection C as C1 C2 C3.
+  repeat split; try assumption.
+  intros _. unfold held_on. rewrite C1, C2, Z.eqb_refl. reflexivity.
+Qed.
+
+(* the rebuilt state does not depend on the delivery order *)
+Theorem sched_replay_order_irrelevant c ops s1 s2 r : no_migration ops = true ->
+  let l := slive_after c ops in
+  got_cache (sreplay (s_descs c) (sl_w l) s1 r) = got_cache (sreplay (s_descs c) (sl_w l) s2 r)
+  /\ se_known (sreplay (s_descs c) (sl_w l) s1 r) = se_known (sreplay (s_descs c) (sl_w l) s2 r).
+Proof.
+  intros HM l.
+  destruct (sched_restart_caches c ops s1 HM) as (_ & H1). destruct (sched_restart_caches c ops s2 HM) as (_ & H2).
+  destruct (H1 r) as (C1 & K1). destruct (H2 r) as (C2 & K2). fold l in C1, K1, C2, K2. split; congruence.
 Qed.
